@@ -319,6 +319,10 @@ class PredEval:
                 if isinstance(a, TypeArg) and isinstance(b, TypeArg):
                     eq = a.cls == b.cls and a.subscripted == b.subscripted and not a.flags and not b.flags
                 return eq if tm[1] in ("is", "==") else not eq
+            if tm[1] in ("<", "<=", ">", ">="):
+                if isinstance(a, (int, float)) and isinstance(b, (int, float)) and not isinstance(a, bool) and not isinstance(b, bool):
+                    return {"<": a < b, "<=": a <= b, ">": a > b, ">=": a >= b}[tm[1]]
+                return None
             if tm[1] in ("in", "notin"):
                 if a is None or not isinstance(b, tuple):
                     return None
@@ -386,6 +390,22 @@ class PredEval:
                 except Exception:
                     return None
             return res
+        if fn == "builtins.len" and len(args) == 1:
+            a = args[0]
+            if isinstance(a, tuple) and not (a and isinstance(a[0], str) and a[0] != "..."):
+                return len(a)
+            return None
+        if fn in ("builtins.set", "builtins.frozenset", "builtins.tuple", "builtins.list") and len(args) == 1:
+            a = args[0]
+            if isinstance(a, tuple) and not (a and isinstance(a[0], str) and a[0] != "..."):
+                if fn in ("builtins.set", "builtins.frozenset"):
+                    out = []
+                    for x in a:
+                        if x not in out:
+                            out.append(x)
+                    return tuple(out)
+                return a
+            return None
         if fn == "builtins.type" and len(args) == 1:
             a = args[0]
             if isinstance(a, TypeArg):
@@ -526,6 +546,8 @@ def _catalogue() -> tuple:
         TypeArg("collections.deque", True, ("builtins.int",)),
         TypeArg("builtins.tuple", True, ("builtins.int", "...")),
         TypeArg("builtins.tuple", True, ("builtins.int", "builtins.str")),
+        TypeArg("builtins.tuple", True, ("builtins.int", "builtins.int")),
+        TypeArg("builtins.tuple", True, ("builtins.float",)),
         TypeArg("builtins.dict", True, ("builtins.str", "builtins.int")),
         TypeArg("collections.OrderedDict", True, ("builtins.str", "builtins.int")),
         TypeArg("collections.abc.Mapping", True, ("builtins.str", "builtins.int")),
